@@ -66,7 +66,9 @@ func allPathsPass(a, b, via ssa.Instruction) bool {
 func runC14(p *Prog, r *Report) {
 	timerDiscipline(p, r, "C14.13/timer-discipline", func(rel string) bool { return rel == "internal/core" })
 	r.Floor("C14.13/timer-discipline", "timer_fields.C14.13/timer-discipline", 1)
-	condWakersComplete(p, r, "C14.8/wakers-complete", func(rel string) bool { return strings.HasPrefix(rel, "protocol/") || rel == "internal/core" || strings.HasPrefix(rel, "transport") })
+	condWakersComplete(p, r, "C14.8/wakers-complete", func(rel string) bool {
+		return strings.HasPrefix(rel, "protocol/") || rel == "internal/core" || strings.HasPrefix(rel, "transport")
+	})
 	r.Floor("C14.8/wakers-complete", "e4c.list_growths_with_waiters", 3)
 	q := NewQ(p, r)
 	R := "C14.1/closed-stops"
